@@ -54,6 +54,8 @@ type Subscription struct {
 	accessCallbacks []func(*rescache.Access)
 	flags           uint8
 	throttle        *rescache.Throttle
+	// Throttle of the system reset whose access check has been deferred
+	reaccessThrottle *rescache.Throttle
 
 	// Protected by conn
 	direct       int // Number of direct subscriptions
@@ -303,9 +305,12 @@ func (s *Subscription) unqueueEvents(reason uint8) {
 		return
 	}
 
-	// Start with reaccess calls
+	// Start with reaccess calls. A check deferred from a system reset is
+	// still governed by the throttle of that reset.
 	if s.flags&flagReaccess != 0 {
-		s.handleReaccess(nil)
+		t := s.reaccessThrottle
+		s.reaccessThrottle = nil
+		s.handleReaccess(t)
 		if s.queueFlag != 0 {
 			return
 		}
@@ -819,6 +824,7 @@ func (s *Subscription) Dispose() {
 	s.readyCallbacks = nil
 	s.eventQueue = nil
 	s.throttle = nil
+	s.reaccessThrottle = nil
 
 	if s.resourceSub != nil {
 		// The state is already set to disposed. Use the previous state to
@@ -880,6 +886,9 @@ func (s *Subscription) reaccess(t *rescache.Throttle) {
 		// the cached access must not be used in the meantime.
 		s.access = nil
 		s.flags |= flagReaccess
+		if t != nil {
+			s.reaccessThrottle = t
+		}
 		return
 	}
 
